@@ -136,7 +136,7 @@ MODULE_ALIASES = {
 }
 
 
-UFUNCS_WITH_OUT = {"numpy.add", "numpy.subtract"}
+UFUNCS_WITH_OUT = {"numpy.add", "numpy.subtract", "numpy.maximum.accumulate"}
 
 
 def _literal(node, env):
@@ -775,6 +775,21 @@ class Prims:
                 st.assume(forall(i1, z3.Implies(in_range(i1, 0, idx.length), W(idx.at(i1)) == i1)))
                 hit = lambda g: z3.And(in_range(W(g), 0, idx.length), idx.fn(W(g)) == g)
                 return SSeq(base.length, lambda g: z3.If(hit(g), value.fn(W(g)), base.fn(g)), kind=base.kind, elem_sort=base.elem_sort, name=base.name)
+            if isinstance(idx, SSeq) and idx.elem_sort == I and not isinstance(value, SSeq):
+                # scatter of one scalar  x[..., idx] = v : the positions listed in idx get v, the others keep their value
+                i1 = fresh("i")
+                ex.oblige(st, forall(i1, z3.Implies(in_range(i1, 0, idx.length), in_range(idx.at(i1), 0, base.length))), ex._name("index", node), f"line {node.lineno}: scatter indices in range: {ex.src(node)[:60]}")
+                mem = seq_member(ex, idx)
+                v = value
+                if base.elem_sort == B:
+                    v = z3.BoolVal(bool(value)) if not is_sym(value) else value
+                elif not is_sym(v):
+                    from . import valsort as V
+
+                    v = V.as_val(value) if str(base.elem_sort) == "Val" else to_z3(value)
+                out = SSeq(base.length, lambda g: z3.If(mem(g), v, base.fn(g)), kind=base.kind, elem_sort=base.elem_sort, name=base.name)
+                out.scattered = (base, idx, v, mem)
+                return out
             if isinstance(idx, SSeq) and idx.elem_sort == B:
                 # masked store  x[mask] = v  (value semantics: the variable is re-bound to the updated array)
                 ex.oblige(st, idx.length == base.length, ex._name("broadcast", node), f"line {node.lineno}: boolean mask has the length of the array")
@@ -910,6 +925,12 @@ class Prims:
             # ufunc(..., out=x) writes its result into x (and returns x): the variable is rebound to the new content
             for s2, v in res:
                 s2.vars[out_name] = v
+                cut = ex.contract.cuts.get(out_name + "@out")
+                if cut is not None and not s2.ghost.get(("cut", out_name + "@out")):
+                    s2.ghost[("cut", out_name + "@out")] = True
+                    for name_, f_ in cut(ex, {**s2.vars, "__state__": s2}):
+                        if ex.oblige(s2, f_, f"{ex.contract.prefix}.cut.{out_name}.{name_}", f"intermediate fact about {out_name} after the in-place update: {name_}"):
+                            s2.assume(f_)
         return res
 
     def call(self, ex, st, fn, args, kwargs, node):
@@ -1084,6 +1105,7 @@ class Prims:
         R("typing.cast", lambda ex, st, a, k, n: a[1])  # dropped by extraction: cast(T, x) -> x
         R("numpy.concatenate", lambda ex, st, a, k, n: seq_concat(a[0][0], a[0][1]) if len(a[0]) == 2 else (_ for _ in ()).throw(Unsupported("concatenate of other than two arrays")))
         R("numpy.isnan", self.m_isnan)
+        R("numpy.maximum.accumulate", self.m_running_max)
         R("numpy.nan_to_num", self.m_nan_to_num)
         R("builtins.slice", lambda ex, st, a, k, n: slice(*a))
         R("numpy.add", lambda ex, st, a, k, n: self.m_ufunc2(ex, st, ast.Add(), a, k, n))
@@ -1172,7 +1194,7 @@ class Prims:
             if isinstance(val, z3.ArithRef):
                 return any(nm in ("int", "Integral", "integer") for nm in names)
             return any(nm in ("bool",) for nm in names)
-        pyt = {"int": int, "str": str, "tuple": tuple, "list": list, "dict": dict, "bool": bool, "float": float, "Integral": int, "Sequence": (list, tuple)}
+        pyt = {"int": int, "str": str, "tuple": tuple, "list": list, "dict": dict, "bool": bool, "float": float, "Integral": int, "Sequence": (list, tuple), "slice": slice}
         return any(isinstance(val, pyt[nm]) for nm in names if nm in pyt)
 
     def m_max(self, ex, st, a, k, node):
@@ -1250,6 +1272,19 @@ class Prims:
         if is_sym(x) and x.sort() == V.Val:
             return V.is_nan(x)
         raise Unsupported("np.isnan of this value")
+
+    def m_running_max(self, ex, st, a, k, node):
+        """np.maximum.accumulate(x) along the (only) axis (ASSUMED): M[0] = x[0], M[i+1] = max(M[i], x[i+1])"""
+        x = a[0]
+        if not (isinstance(x, SSeq) and x.elem_sort == I):
+            raise Unsupported("maximum.accumulate of this value")
+        M = z3.Function(f"running_max!{fresh('m').decl().name()}", I, I)
+        i = fresh("i")
+        st.assume(z3.Implies(x.length >= 1, M(0) == x.at(0)))
+        st.assume(forall(i, z3.Implies(in_range(i, 0, x.length - 1), M(i + 1) == z3.If(x.at(i + 1) >= M(i), x.at(i + 1), M(i))), patterns=[M(i + 1)]))
+        out = SSeq(x.length, lambda t: M(t), kind="array", elem_sort=I, name="running_max")
+        out.running_max_of = (x, M)
+        return out
 
     def m_nan_to_num(self, ex, st, a, k, node):
         """np.nan_to_num(x, nan=v, posinf=None, neginf=None): NaN -> v, and - unless told otherwise - +inf / -inf -> the largest /
